@@ -305,6 +305,22 @@ def classify_diff(got, exp, xs, n):
     return "wrong-blocks"
 
 
+def _alternately(g1, g2):
+    out = ([], [])
+    live = [iter(g1), iter(g2)]
+    turn = 0
+    while any(g is not None for g in live):
+        i = turn % 2
+        turn += 1
+        if live[i] is None:
+            continue
+        try:
+            out[i].append(next(live[i]))
+        except StopIteration:
+            live[i] = None
+    return out
+
+
 def _guard(obs, budget):
     import lena.core
     from rv.monitors.steps import StepBudget
@@ -347,6 +363,46 @@ def run_case(r, obs):
             obs.count("oracle_evaluations")
             if N == 0:
                 obs.check(got == [], "run:empty-flow-yields", "empty flow yielded %r" % (got,))
+            if N in (n, 2 * n + 1, r["nmax"]) and N:
+                # (a) two run() generators of one object alive at once (the element twice in a
+                # sequence, two flows zipped): each processes its own flow in its own blocks
+                ys = [x + 500 for x in xs]
+                fr2 = make_fr(kind, n, mode, reset, yor)
+                twin_exp = None
+                if not has_reset(kind) or reset or kind in ("run_collect", "run_map",
+                                                             "run_first", "fc_count"):
+                    twin_exp = model_run(kind, n, reset, yor, ys)
+                if kind in ("run_collect", "run_map", "run_first"):
+                    # stateless wrapped elements only: a stateful one is shared by design
+                    try:
+                        with _guard(obs, 800 * (N + 2) + 4000):
+                            ga, gb = _alternately(fr2.run(iter(xs)), fr2.run(iter(ys)))
+                    except StepBudgetExceeded as e:
+                        obs.fail("run:%s:buffer_%s:nontermination" % (kind.split("_")[0], mode),
+                                 "two live runs: %s" % e)
+                    else:
+                        obs.count("run_executions", 2)
+                        obs.check(ga == exp and gb == twin_exp,
+                                  "run:%s:buffer_%s%s:two-live-runs-of-one-object"
+                                  % (kind.split("_")[0], mode, ":yor" if yor else ""),
+                                  "two run() generators of one FillRequest(%s, bufsize=%d, "
+                                  "buffer_%sput, yield_on_remainder=%s) consumed alternately give "
+                                  "%r and %r, expected %r and %r"
+                                  % (kind, n, mode, yor, ga, gb, exp, twin_exp))
+                # (b) a deep copy (what SplitIntoBins / MapBins / Split copies are) run beside
+                # the original
+                import copy
+                orig = make_fr(kind, n, mode, reset, yor)
+                dup = copy.deepcopy(orig)
+                gd = list(dup.run(iter(ys)))
+                go = list(orig.run(iter(xs)))
+                obs.count("run_executions", 2)
+                obs.check(go == exp and gd == model_run(kind, n, reset, yor, ys),
+                          "run:%s:buffer_%s%s:deep-copy-differs"
+                          % (kind.split("_")[0], mode, ":yor" if yor else ""),
+                          "a deep copy of FillRequest(%s, bufsize=%d, buffer_%sput) run on %r gives "
+                          "%r and the original on %r gives %r"
+                          % (kind, n, mode, ys, gd, xs, go))
     elif k == "run_special":
         kind, n, mode, reset, yor = r["kind"], r["n"], r["mode"], r["reset"], r["yor"]
         obs.nontrivial = True
@@ -448,6 +504,34 @@ def run_case(r, obs):
                          "not return: %s" % (kind, n, mode, reset, " ".join(hist), e))
                 continue
             obs.count("oracle_evaluations")
+            if mask % 5 == 3 or mask == (1 << N) - 1:
+                # the original and a deep copy of it driven in turn by the same history (the
+                # copy with its own values): the copy keeps its own buffers
+                import copy
+                o = make_fr(kind, n, mode, reset, False)
+                c = copy.deepcopy(o)
+                go, gc = [], []
+                try:
+                    with _guard(obs, 1200 * (N + 2) + 6000):
+                        for i, x in enumerate(xs):
+                            o.fill(x)
+                            c.fill(x + 500)
+                            if mask >> i & 1:
+                                go.extend(o.request())
+                                gc.extend(c.request())
+                        go.extend(o.request())
+                        gc.extend(c.request())
+                except StepBudgetExceeded as e:
+                    obs.fail("fill-request:buffer_%s:nontermination:deep-copy" % mode, "%s" % e)
+                else:
+                    expc = model_run(kind, n, reset, False, [x + 500 for x in xs])
+                    obs.count("histories", 2)
+                    obs.check(go == exp and gc == expc,
+                              "fill-request:buffer_%s:deep-copy-shares-state" % mode,
+                              "FillRequest(%s, bufsize=%d, buffer_%sput, reset=%s) and a deep copy "
+                              "of it, both driven by the history %s: original %r (expected %r), "
+                              "copy %r (expected %r)"
+                              % (kind, n, mode, reset, " ".join(hist), go, exp, gc, expc))
             if got != exp:
                 shape = classify_diff(got, exp, xs, n)
                 cond = ("requests-on-block-boundaries" if aligned else
@@ -495,7 +579,7 @@ def run_case(r, obs):
     elif k == "frseq":
         n, reset, pre, post = r["n"], r["reset"], r["pre"], r["post"]
 
-        def mk(bufsize):
+        def mk(bufsize, yor=False):
             args = []
             if pre:
                 args.append(lambda x: x + 100)
@@ -503,10 +587,31 @@ def run_case(r, obs):
                                               buffer_input=True))
             if post:
                 args.append(lambda v: ("post", v))
+            kw = {"yield_on_remainder": True} if yor else {}
             return lena.core.FillRequestSeq(*args, bufsize=bufsize, reset=reset,
-                                            buffer_input=True)
+                                            buffer_input=True, **kw)
         for N in range(0, r["nmax"] + 1):
             xs = list(range(1, N + 1))
+            # the sequence's own run with yield_on_remainder: the final partial block too
+            twin = mk(n, True)
+            expy = []
+            for i in range(0, N, n):
+                for v in xs[i:i + n]:
+                    twin.fill(v)
+                expy.extend(list(twin.request()))
+                if reset:
+                    twin.reset()
+            try:
+                with _guard(obs, 800 * (N + 2) + 3000):
+                    goty = list(mk(n, True).run(iter(xs)))
+            except StepBudgetExceeded as e:
+                obs.fail("frseq:nontermination", "FillRequestSeq(yor).run(%r): %s" % (xs, e))
+            else:
+                obs.count("frseq_executions")
+                obs.check(goty == expy, "frseq:yor:run-differs-from-block-model",
+                          "FillRequestSeq(pre=%s, FillRequest(Store), post=%s, bufsize=%d, "
+                          "reset=%s, yield_on_remainder=True).run(%r) = %r, expected %r"
+                          % (pre, post, n, reset, xs, goty, expy))
             twin = mk(n)
             exp = []
             for i in range(0, N, n):
